@@ -8,6 +8,7 @@ package main
 import (
 	"encoding/json"
 	"go/types"
+	"math/big"
 )
 
 func (m *Machine) deepCopy(v Value, seen map[*Obj]*Obj) Value {
@@ -304,6 +305,16 @@ func (m *Machine) genericJSONDest(t types.Type) bool {
 
 // floatify replaces every symbolic integer leaf by "some number within float64
 // rounding distance of it": exact up to 2^53, within 2^10 beyond (int64 range).
+// float64Of is float64(x) for an integer x, as an integer term.
+func (m *Machine) float64Of(x *Term) *Term {
+	if x.isConst() {
+		f, _ := new(big.Float).SetInt(x.iv).Float64()
+		r, _ := big.NewFloat(f).Int(nil)
+		return mkIntBig(r)
+	}
+	return m.floatify(x).(*Term)
+}
+
 func (m *Machine) floatify(v Value) Value {
 	switch x := v.(type) {
 	case *Term:
@@ -319,7 +330,7 @@ func (m *Machine) floatify(v Value) Value {
 		r := mkVar(m.uniqueName("float64of"), SInt, nil, nil)
 		m.declare(r)
 		m.floatCache[x.String()] = r
-		// float64(x): exact below 2^53; for 2^k <= |x| < 2^(k+1) the nearest multiple of 2^(k-52) (ties either way)
+		// float64(x): exact below 2^53; for 2^k <= |x| < 2^(k+1) the nearest multiple of 2^(k-52), ties to even
 		ax := tIte(tLt(x, mkInt(0)), tNeg(x), x)
 		cs := []*Term{tImplies(tLt(ax, mkIntBig(pow2(53))), tEq(r, x))}
 		for k := 53; k <= 63; k++ {
@@ -327,7 +338,10 @@ func (m *Machine) floatify(v Value) Value {
 			in := tAnd(tLe(mkIntBig(pow2(k)), ax), tLt(ax, mkIntBig(pow2(k+1))))
 			d := tSub(r, x)
 			ad := tIte(tLt(d, mkInt(0)), tNeg(d), d)
-			cs = append(cs, tImplies(in, tAnd(tEq(tEMod(r, g), mkInt(0)), tLe(tMul(mkInt(2), ad), g))))
+			// nearest multiple of g; an exact tie goes to the even multiple (IEEE round-half-even)
+			g2 := mkIntBig(pow2(k - 51))
+			tie := tEq(tMul(mkInt(2), ad), g)
+			cs = append(cs, tImplies(in, tAnd(tEq(tEMod(r, g), mkInt(0)), tLe(tMul(mkInt(2), ad), g), tImplies(tie, tEq(tEMod(r, g2), mkInt(0))))))
 		}
 		m.assume(tAnd(cs...))
 		return r
